@@ -96,6 +96,12 @@ func init() {
 				if oz > 35 {
 					oz = 35
 				}
+				if rng.Intn(4) == 0 { // any coarser output zoom is at least as cheap: include 0, 1, 2
+					oz = int64(rng.Intn(int(oz) + 1))
+					if rng.Intn(3) == 0 {
+						oz = int64(rng.Intn(3))
+					}
+				}
 				vi := int64(math.Floor((mn + (mx-mn)*(rng.Float64()*1.4-0.2)) / cell))
 				do("v2b", s(vz), s(vi), s(oz), fbits(mx), fbits(mn))
 			case 2: // bit ID → vertical indices
@@ -108,6 +114,12 @@ func init() {
 				}
 				if oz > 35 {
 					oz = 35
+				}
+				if rng.Intn(4) == 0 { // any coarser output zoom is at least as cheap: include 0, 1, 2
+					oz = int64(rng.Intn(int(oz) + 1))
+					if rng.Intn(3) == 0 {
+						oz = int64(rng.Intn(3))
+					}
 				}
 				do("b2v", s(vz), s(vi), s(oz), fbits(mx), fbits(mn))
 			case 3, 4: // exported: extended IDs → (quadkey, bit ID) groups
@@ -131,6 +143,12 @@ func init() {
 				if oz > 35 {
 					oz = 35
 				}
+				if rng.Intn(4) == 0 { // any coarser output zoom is at least as cheap: include 0, 1, 2
+					oz = int64(rng.Intn(int(oz) + 1))
+					if rng.Intn(3) == 0 {
+						oz = int64(rng.Intn(3))
+					}
+				}
 				idl := maybeCorrupt(ids(l), 0.03)
 				do("e2qvh", join(idl), s(zoomNear(h, 1, 1)+int64(boolToInt(h <= 1))), s(oz), fbits(mx), fbits(mn), fl(mx), fl(mn))
 			default: // exported: (quadkey, bit ID) → extended IDs
@@ -148,6 +166,12 @@ func init() {
 				}
 				if oz > 35 {
 					oz = 35
+				}
+				if rng.Intn(4) == 0 { // any coarser output zoom is at least as cheap: include 0, 1, 2
+					oz = int64(rng.Intn(int(oz) + 1))
+					if rng.Intn(3) == 0 {
+						oz = int64(rng.Intn(3))
+					}
 				}
 				do("qv2exth", fmt.Sprintf("%d:%d:%d:%d", qz, q, vz, vi), s(zoomNear(qz, 2, 1)), s(oz), fbits(mx), fbits(mn))
 			}
